@@ -191,11 +191,11 @@ def run(tier, seed, jobs) -> Result:
     by = {sc["name"]: sc for sc in c10.scenarios(tier)}
     per = []
     s_exec = s_steps = 0
-    for name in ("copy|expunge", "move1|move3", "copyself|store12", "copy|copyback"):
+    for name in ("copy|expunge", "move1|move3", "copyself|store12", "copy|copyback", "copy|fetchdates-in-dst"):
         sc = by[name]
         r = sched.explore(sc, (1 if name in ("move1|move3",) else 2) if tier == "quick" else 2, jobs, seed, max_exec=20000 if tier == "quick" else 80000)
         for f in r["failures"]:
-            if f.rule in ("C10.not-linearizable", "C02.copyuid-names-other-message", "C02.copyuid-shape"):
+            if f.rule in ("C10.not-linearizable", "C02.copyuid-names-other-message", "C02.copyuid-shape", "C03.internaldate-changed"):
                 f.details = dict(f.details, was=f.rule)
                 f.rule = "C05.concurrent-copy-move-expunge-not-sequential"
                 res.failures.append(f)
@@ -235,7 +235,7 @@ def replay(rec):
         _p, _n, _sig, fails, _st = sched.run_one((rp["scenario"], rp["choices"]))
         out = []
         for f in fails:
-            if f.rule in ("C10.not-linearizable", "C02.copyuid-names-other-message", "C02.copyuid-shape"):
+            if f.rule in ("C10.not-linearizable", "C02.copyuid-names-other-message", "C02.copyuid-shape", "C03.internaldate-changed"):
                 f.rule = "C05.concurrent-copy-move-expunge-not-sequential"
                 out.append(f)
         return out
